@@ -6,7 +6,7 @@
 import sys, os, shutil, subprocess, time, re
 label, rel, old, new = sys.argv[1:5]
 nth = int(sys.argv[5]) if len(sys.argv) > 5 and sys.argv[5].isdigit() else 1
-extra = [a for a in sys.argv[5:] if not a.isdigit()]
+extra = sys.argv[6:] if (len(sys.argv) > 5 and sys.argv[5].isdigit()) else sys.argv[5:]
 unit = os.environ.get('MSM_UNIT', 'msm')
 root = f'/verif/.work/msm/mrepo_{label}'
 os.makedirs('/verif/.work/msm/mut', exist_ok=True)
